@@ -89,13 +89,18 @@ func (ms *Modules) Parse(data, name string) error {
 		return err
 	}
 	for _, s := range ss {
-		n, err := buildASTWithTypeDict(s, ms.typeDict)
+		// The typedefs of a module are collected on the side and handed
+		// to the set only once the module has been accepted, so that a
+		// rejected module leaves none behind.
+		types := newTypeDictionary()
+		n, err := buildASTWithTypeDict(s, types)
 		if err != nil {
 			return err
 		}
 		if err := ms.add(n); err != nil {
 			return err
 		}
+		ms.typeDict.merge(types)
 	}
 	return nil
 }
